@@ -806,3 +806,159 @@ pub mod verif {
         }
     }
 }
+
+/// Verification hook (compiled only with `--cfg actix_net_verif`): build the real
+/// `ServerWorker` on the current thread, so that a harness can poll it by hand.
+#[cfg(actix_net_verif)]
+pub mod verif_inthread {
+    #![allow(missing_docs, private_interfaces, missing_debug_implementations)]
+
+    use std::net::SocketAddr;
+
+    use actix_rt::net::TcpStream;
+
+    use super::{verif::AcceptHandle, *};
+    use crate::{
+        accept::verif::Wq,
+        service::{ServerServiceFactory, StreamNewService},
+    };
+
+    /// Opaque wrapper of a boxed internal factory, built as `ServerBuilder::bind/listen` build it.
+    pub struct FactoryBox(Box<dyn InternalServiceFactory>);
+
+    impl FactoryBox {
+        pub fn tcp<F>(name: &str, token: usize, factory: F, addr: SocketAddr) -> Self
+        where
+            F: ServerServiceFactory<TcpStream>,
+        {
+            FactoryBox(StreamNewService::create(
+                name.to_string(),
+                token,
+                factory,
+                addr,
+            ))
+        }
+    }
+
+    /// The real `ServerWorker`; `Future` by delegation.
+    pub struct WorkerFut(ServerWorker);
+
+    impl Future for WorkerFut {
+        type Output = ();
+
+        fn poll(mut self: Pin<&mut Self>, cx: &mut Context<'_>) -> Poll<()> {
+            Pin::new(&mut self.0).poll(cx)
+        }
+    }
+
+    /// The real `WorkerHandleServer`, with its crate-private `stop` made callable.
+    pub struct StopHandle(WorkerHandleServer);
+
+    impl StopHandle {
+        pub fn stop(&self, graceful: bool) -> oneshot::Receiver<bool> {
+            self.0.stop(graceful)
+        }
+    }
+
+    /// Mirror of the part of `ServerWorker::start` that creates the services and builds the
+    /// worker, minus thread/arbiter creation. `Err(i)` = factory `i` failed.
+    pub async fn in_thread(
+        idx: usize,
+        factories: Vec<FactoryBox>,
+        wq: &Wq,
+        limit: usize,
+        shutdown_timeout: Duration,
+    ) -> Result<(WorkerFut, AcceptHandle, StopHandle), usize> {
+        let factories: Vec<Box<dyn InternalServiceFactory>> =
+            factories.into_iter().map(|f| f.0).collect();
+
+        let (tx1, conn_rx) = unbounded_channel();
+        let (tx2, stop_rx) = unbounded_channel();
+
+        let counter = Counter::new(limit);
+        let (accept, server) = handle_pair(idx, tx1, tx2, counter.clone());
+
+        let mut services = Vec::new();
+
+        for (idx, factory) in factories.iter().enumerate() {
+            match factory.create().await {
+                Ok((token, svc)) => services.push((idx, token, svc)),
+                Err(_) => return Err(idx),
+            }
+        }
+
+        let worker_services = wrap_worker_services(services);
+
+        let worker = ServerWorker {
+            conn_rx,
+            stop_rx,
+            services: worker_services.into_boxed_slice(),
+            counter: WorkerCounter::new(idx, wq.0.clone(), counter),
+            factories: factories.into_boxed_slice(),
+            state: WorkerState::default(),
+            shutdown_timeout,
+        };
+
+        Ok((WorkerFut(worker), AcceptHandle(accept), StopHandle(server)))
+    }
+
+    /// `WorkerHandleAccept::send`; false = the worker's receiver is gone.
+    pub fn send(handle: &AcceptHandle, token: usize, io: MioStream) -> bool {
+        handle.0.send(Conn { io, token }).is_ok()
+    }
+
+    /// `WorkerHandleAccept::inc_counter`
+    pub fn inc_counter(handle: &AcceptHandle) -> bool {
+        handle.0.inc_counter()
+    }
+
+    /// Remove and return the `WorkerAvailable(idx)` interests queued so far.
+    pub fn take_worker_available(wq: &Wq) -> Vec<usize> {
+        let mut guard = wq.0.guard();
+        let mut out = Vec::new();
+        let mut keep = std::collections::VecDeque::new();
+        while let Some(interest) = guard.pop_front() {
+            match interest {
+                WakerInterest::WorkerAvailable(idx) => out.push(idx),
+                other => keep.push_back(other),
+            }
+        }
+        *guard = keep;
+        out
+    }
+
+    // read-only views (diagnostics)
+    impl WorkerFut {
+        pub fn raw_counter(&self) -> usize {
+            self.0.counter.inner.1.counter.load(Ordering::SeqCst)
+        }
+
+        pub fn state_name(&self) -> &'static str {
+            match self.0.state {
+                WorkerState::Available => "Available",
+                WorkerState::Unavailable => "Unavailable",
+                WorkerState::Restarting(_) => "Restarting",
+                WorkerState::Shutdown(_) => "Shutdown",
+            }
+        }
+
+        pub fn service_statuses(&self) -> Vec<&'static str> {
+            self.0
+                .services
+                .iter()
+                .map(|srv| match srv.status {
+                    WorkerServiceStatus::Available => "Available",
+                    WorkerServiceStatus::Unavailable => "Unavailable",
+                    WorkerServiceStatus::Failed => "Failed",
+                    WorkerServiceStatus::Restarting => "Restarting",
+                    WorkerServiceStatus::Stopping => "Stopping",
+                    WorkerServiceStatus::Stopped => "Stopped",
+                })
+                .collect()
+        }
+
+        pub fn queued(&self) -> usize {
+            self.0.conn_rx.len()
+        }
+    }
+}
